@@ -18,18 +18,19 @@ from mbt import engine as E
 from mbt.drive import props as D
 
 PID = "C09"
-CFG = "SPECIFICATION Spec\nCONSTANTS KINDS = {%s}\n DEPTH = %d\n LVL = %d\nINVARIANT EmitState\nINVARIANT FrameSound\nCHECK_DEADLOCK FALSE\n"
+CFG = "SPECIFICATION Spec\nCONSTANTS KINDS = {%s}\n DEPTH = %d\n LVL = %d\nINVARIANT EmitState\nCHECK_DEADLOCK FALSE\n"
 REOPEN = {"op": "SaveReopen", "p": 0, "v": {"cls": "INIT", "anchor": "", "delta": 0}, "exp": "ok"}
 OPS = ("Set", "SetNone", "SetOut", "SaveReopen")
 
 
-def explore(work, name, depth, lvl, nk):
+def explore(work, name, depth, lvl, nk, big=False):
     """TLC enumerates every assignment sequence of the configuration; returns (leaf sequences, action tables, result)."""
     cfg = os.path.join(work, "MC_Props_%s.cfg" % name)
     with open(cfg, "w") as f:
         f.write(CFG % (", ".join(str(i + 1) for i in range(nk)), depth, lvl))
     acts_file = os.path.join(work, "acts_%s.json" % name)
-    r = E.run_tlc("MC_Props", cfg, work=work, workers=6, timeout=1500, heap="6g", extra=["-coverage", "1"],
+    # -coverage 1 (per-disjunct counts) on the small configurations; the big thorough pairs run is counted from its output
+    r = E.run_tlc("MC_Props", cfg, work=work, workers=12 if big else 6, timeout=1500, heap="8g", extra=[] if big else ["-coverage", "1"],
                   env={"CAT_FILE": os.path.join(work, "cat.json"), "ACTS_FILE": acts_file})
     if r.invariant_violated or "is violated" in r.out or "Assumption" in r.out and "is false" in r.out:
         raise E.MachineryError("MC_Props[%s]: design-level sanity failed (%s); see %s" % (name, r.invariant_violated, work))
@@ -196,7 +197,7 @@ def main() -> int:
     comp = D.completeness()
     phase["catalogue_s"] = round(time.time() - t0, 1)
     t0 = time.time()
-    jobs, per_cfg, actions, states, transitions = [], {}, {}, 0, 0
+    jobs, per_cfg, actions, coverage, states, transitions = [], {}, {}, {}, 0, 0
     if rp:
         jobs = [(rp["id"], rp["kind"], rp["deck"], rp["path"], rp["acts"])]
     else:
@@ -205,19 +206,22 @@ def main() -> int:
             os.remove(os.path.join(rdir, fn))
         # (name, depth, value-class level): every sequence of exactly `depth` assignments, then SaveReopen
         # thorough: the pairs run over ALL value classes (level 1); quick: over the pair classes (level 2)
-        cfgs = [("sweep", 1, 1), ("pairs", 2, 1 if thorough else 2), ("triples", 3, 3)]
+        cfgs = [("sweep", 1, 1, False), ("pairs", 2, 1 if thorough else 2, thorough), ("triples", 3, 3, False)]
         with cf.ThreadPoolExecutor(len(cfgs)) as ex:
-            res = list(ex.map(lambda c: explore(work, c[0], c[1], c[2], len(cat)), cfgs))
+            res = list(ex.map(lambda c: explore(work, c[0], c[1], c[2], len(cat), c[3]), cfgs))
         sweep_acts = None
-        for (name, depth, lvl), (sts, acts, r) in zip(cfgs, res):
+        for (name, depth, lvl, big), (sts, acts, r) in zip(cfgs, res):
             states += r.distinct
             transitions += r.generated
             for k, v in r.coverage_counts().items():
-                actions[k] = actions.get(k, 0) + v
+                coverage[k] = coverage.get(k, 0) + v
             for i, s in enumerate(sts):
                 kn = knames[s["k"] - 1]
                 K = D.RT["kinds"][kn]
-                jobs.append(("%s:%d" % (name, i), kn, K["deck"], K["path"], scenario(acts, s)))
+                sc = scenario(acts, s)
+                for a in sc:                    # actions of the enumerated sequences, per kind of action
+                    actions[a["op"]] = actions.get(a["op"], 0) + 1
+                jobs.append(("%s:%d" % (name, i), kn, K["deck"], K["path"], sc))
             per_cfg[name] = {"assignments": depth, "value_class_level": lvl, "sequences": len(sts), "tlc_distinct": r.distinct,
                              "tlc_wall_s": round(r.wall, 1), "actions_per_kind": {knames[i]: len(a) for i, a in enumerate(acts)}}
             if name == "sweep":
@@ -338,7 +342,7 @@ def main() -> int:
                          "out_of_scope_sites": comp["out_of_scope"], "kinds": {k["kind"]: [p["p"] for p in k["props"] if not p["ro"]] for k in cat}},
            "uncatalogued": comp["uncatalogued"],
            "report_only": {k: {"count": len(v), "what": what.get(k, ""), "cases": v[:400]} for k, v in obs.items()},
-           "phase_wall_s": phase, "configs": per_cfg, "action_counts": actions, "real_steps_by_action": seen, "real_outcomes": outs}
+           "phase_wall_s": phase, "configs": per_cfg, "action_counts": actions, "tlc_coverage_counts": coverage, "real_steps_by_action": seen, "real_outcomes": outs}
     return rep.finish("exploration", cov, [
         "TLC 1.8 generates the scenarios and evaluates every named clause on the observed steps; it does NOT compute with the values: "
         "|read - assigned| <= quantum is computed by the driver with exact arithmetic (fractions.Fraction over the exact binary value of "
